@@ -600,6 +600,8 @@ def _array(ex, args, kwargs, fr):
         ex.st.cell(out).tag = ("range", lo, z3.simplify(z3.If(hi > lo, hi, lo)))
         return out
     items = ex.try_list(v)
+    if items is not None and items and all(isinstance(x, VStr) for x in items):
+        return new_array(ex, (len(items),), VDtype("str"), lambda ix, items=items: _select_any(items, ix[0]))
     if items is not None and all(is_num(x) for x in items):
         d = dtype or VDtype("float64" if any(isinstance(x, VFloat) for x in items) else "int64")
 
@@ -1132,3 +1134,12 @@ def _tile(ex, args, kwargs, fr):
         raise Unsupported("np.tile of a non 1-D array")
     el, n = c.elem, z_int(c.shape[0])
     return new_array(ex, (n * reps,), c.dtype, lambda ix: el((z_int(ix[0]) % n,)))
+
+
+def _select_any(items, i):
+    if not is_conc(i):
+        i = z3.simplify(i)
+        if not z3.is_int_value(i):
+            raise Unsupported("symbolic index into an array of strings")
+        i = i.as_long()
+    return items[i]
